@@ -14,7 +14,8 @@ THEOREMS = ["GitAi.Sys.no_invention", "GitAi.Sys.ghost_only_from_agent_edit", "G
             "GitAi.Sys.no_invention_all_ops", "GitAi.Sys.no_invention_all_ops_note", "GitAi.Sys.discard_drops_claims",
             "GitAi.Sys.regression_O3_stale_initial_after_path_checkout", "GitAi.Sys.regression_O20_initial_by_line_number_after_restore",
             "GitAi.Sys.regression_O17_stale_entry_after_restore", "GitAi.Sys.regression_O21_stash_drop_stale_entry",
-            "GitAi.Sys.witness_path_checkout_loses_staged_ai_line"]
+            "GitAi.Sys.path_checkout_exact", "GitAi.Sys.regression_path_checkout_keeps_staged_ai_line",
+            "GitAi.Sys.witness_path_checkout_loses_line_removed_after_staging"]
 # findings the line-identity model cannot see (token level / commit coordinates): runs in which the content oracle
 # reports one of them are not held against the model
 EXPLAINED = ("reconstruction-keeps-ai-on-line-rewritten-by-person", "line-added-by-commit-was-modified-again-unstaged")
@@ -301,7 +302,7 @@ class Walk:
                     self.directed_edit("human", p, [self.fresh("human")] + self.read_lines(p))
         elif pending_via == "staged":
             # the AI lines are staged, then the person edits further: a path checkout / restore brings the STAGED
-            # version (with the AI lines) back (replay of Props/C03.lean witness_path_checkout_loses_staged_ai_line)
+            # version (with the AI lines) back (replay of Props/C03.lean regression_path_checkout_keeps_staged_ai_line)
             self.git("add", "-A")
             for p in (f, g):
                 self.directed_edit("human", p, self.read_lines(p) + [self.fresh("human")])
